@@ -33,12 +33,31 @@ type ChildInfo struct {
 	UpBH    string `json:"upbh"`
 	SocksBH string `json:"socksbh"`
 	BHErr   string `json:"bh_err"`
+	BodyLog string `json:"bodylog"` // HTTP log mode "body" (every relayed reply is formatted, bodies are read and put back)
 	Pid   int    `json:"pid"`
 }
 
 // HostileChild runs three real proxies (plain listener, TLS listener, plain
 // listener with MITM) until stdin is closed.
-func HostileChild(memLimit int64, readHeaderTimeout time.Duration) {
+func HostileChild(memLimit int64, readHeaderTimeout time.Duration, nofile int) {
+	if nofile > 0 {
+		// descriptor-exhaustion experiment: one plain proxy, then the descriptor table is capped
+		o := Options{Namespace: "vfp", ReadHeaderTimeout: readHeaderTimeout}
+		plain, err := New(o)
+		if err != nil {
+			fmt.Fprintln(os.Stderr, "child: start proxy:", err)
+			os.Exit(3)
+		}
+		lim := syscall.Rlimit{Cur: uint64(nofile), Max: uint64(nofile)}
+		if err := syscall.Setrlimit(syscall.RLIMIT_NOFILE, &lim); err != nil {
+			fmt.Fprintln(os.Stderr, "child: setrlimit nofile:", err)
+			os.Exit(3)
+		}
+		b, _ := json.Marshal(ChildInfo{Plain: plain.Addr, Pid: os.Getpid()})
+		fmt.Println(string(b))
+		io.Copy(io.Discard, os.Stdin)
+		os.Exit(0)
+	}
 	if memLimit > 0 {
 		lim := syscall.Rlimit{Cur: uint64(memLimit), Max: uint64(memLimit)}
 		if err := syscall.Setrlimit(syscall.RLIMIT_AS, &lim); err != nil {
@@ -59,7 +78,8 @@ func HostileChild(memLimit int64, readHeaderTimeout time.Duration) {
 	tl := mk(Options{Namespace: "vft", TLSListener: true})
 	mitm := mk(Options{Namespace: "vfm", MITM: true})
 	pp := mk(Options{Namespace: "vfpp", ProxyProtocol: 500 * time.Millisecond})
-	info := ChildInfo{Plain: plain.Addr, TLS: tl.Addr, MITM: mitm.Addr, PP: pp.Addr, Pid: os.Getpid()}
+	bl := mk(Options{Namespace: "vfbl", LogHTTPBody: true})
+	info := ChildInfo{Plain: plain.Addr, TLS: tl.Addr, MITM: mitm.Addr, PP: pp.Addr, BodyLog: bl.Addr, Pid: os.Getpid()}
 	if bh, err := Blackhole(); err != nil {
 		info.BHErr = err.Error()
 	} else {
@@ -106,7 +126,14 @@ type child struct {
 }
 
 func startChild(self string, mem int64, rht time.Duration) (*child, error) {
+	return startChildN(self, mem, rht, 0)
+}
+
+func startChildN(self string, mem int64, rht time.Duration, nofile int) (*child, error) {
 	args := []string{"-child"}
+	if nofile > 0 {
+		args = append(args, "-child-nofile", strconv.Itoa(nofile))
+	}
 	if mem > 0 {
 		args = append(args, "-child-mem", strconv.FormatInt(mem, 10))
 	}
@@ -393,6 +420,18 @@ func hostileReplies() []struct {
 		{"origin-http09", [][]byte{[]byte("<html>hello</html>")}, "fin"},
 		{"origin-101-unasked", [][]byte{[]byte("HTTP/1.1 101 Switching Protocols\r\nConnection: Upgrade\r\nUpgrade: x\r\n\r\n\x00\x01\x02")}, "fin"},
 		{"origin-204-with-body", [][]byte{[]byte("HTTP/1.1 204 No Content\r\nContent-Length: 5\r\n\r\nhello")}, "fin"},
+		// status lines without a reason phrase (net/http: Status == "503"), with an empty one, and with odd ones; the default
+		// HTTP log mode (errors) formats every relayed reply with status >= 500, mode body formats all
+		{"origin-bare-status-503", [][]byte{[]byte("HTTP/1.1 503\r\nContent-Length: 2\r\n\r\nno")}, "fin"},
+		{"origin-bare-status-599", [][]byte{[]byte("HTTP/1.1 599\r\nContent-Length: 0\r\n\r\n")}, "fin"},
+		{"origin-bare-status-500-chunked", [][]byte{[]byte("HTTP/1.1 500\r\nTransfer-Encoding: chunked\r\n\r\n2\r\nno\r\n0\r\n\r\n")}, "fin"},
+		{"origin-bare-status-200", [][]byte{[]byte("HTTP/1.1 200\r\nContent-Length: 2\r\n\r\nok")}, "fin"},
+		{"origin-empty-reason-502", [][]byte{[]byte("HTTP/1.1 502 \r\nContent-Length: 0\r\n\r\n")}, "fin"},
+		{"origin-empty-reason-200", [][]byte{[]byte("HTTP/1.1 200 \r\nContent-Length: 2\r\n\r\nok")}, "fin"},
+		{"origin-reason-only-spaces-504", [][]byte{[]byte("HTTP/1.1 504    \r\nContent-Length: 0\r\n\r\n")}, "fin"},
+		{"origin-http10-bare-status-500", [][]byte{[]byte("HTTP/1.0 500\r\n\r\nclose-delimited")}, "fin"},
+		{"origin-four-digit-status", [][]byte{[]byte("HTTP/1.1 5030 Nope\r\nContent-Length: 0\r\n\r\n")}, "fin"},
+		{"origin-two-digit-status", [][]byte{[]byte("HTTP/1.1 50\r\nContent-Length: 0\r\n\r\n")}, "fin"},
 		{"origin-extra-after-body", [][]byte{[]byte("HTTP/1.1 200 OK\r\nContent-Length: 2\r\n\r\nokHTTP/1.1 200 OK\r\nContent-Length: 4\r\n\r\nevil")}, "fin"},
 	}
 	// reply heads that must not carry a body (1xx, 101, 204, 304, replies to HEAD) combined with header fields that
@@ -498,6 +537,8 @@ func RunHostile(self, tier string, seed uint64, only string) []HostileResult {
 			return ch.info.MITM
 		case "pp":
 			return ch.info.PP
+		case "bodylog":
+			return ch.info.BodyLog
 		case "upbh":
 			return ch.info.UpBH
 		case "socksbh":
@@ -670,20 +711,31 @@ func RunHostile(self, tier string, seed uint64, only string) []HostileResult {
 			end   string
 		}{hr.reply, hr.end}
 		replyMu.Unlock()
-		run(hr.name, "origin", 0, func() (string, string, int) {
-			c, err := net.DialTimeout("tcp", ch.info.Plain, 2*time.Second)
-			if err != nil {
-				return "dial: " + err.Error(), "", 0
-			}
-			defer c.Close()
-			method, headOnly := "GET", false
-			if strings.HasPrefix(hr.name, "headreq-") {
-				method, headOnly = "HEAD", true
-			}
-			c.Write([]byte(method + " http://" + origin.Addr + "/hostile/" + hr.name + " HTTP/1.1\r\nHost: " + origin.Addr + "\r\n\r\n"))
-			co := ReadResponse(c, headOnly, 3*time.Second)
-			return truncate(co.Raw, 120), co.P.Verdict, co.P.Status
-		})
+		via := []string{"origin"}
+		if strings.Contains(hr.name, "-status") || strings.Contains(hr.name, "-reason-") {
+			via = append(via, "bodylog") // the same reply relayed by the proxy in HTTP log mode body
+		}
+		for _, l := range via {
+			l := l
+			run(hr.name, l, 0, func() (string, string, int) {
+				addr := ch.info.Plain
+				if l == "bodylog" {
+					addr = ch.info.BodyLog
+				}
+				c, err := net.DialTimeout("tcp", addr, 2*time.Second)
+				if err != nil {
+					return "dial: " + err.Error(), "", 0
+				}
+				defer c.Close()
+				method, headOnly := "GET", false
+				if strings.HasPrefix(hr.name, "headreq-") {
+					method, headOnly = "HEAD", true
+				}
+				c.Write([]byte(method + " http://" + origin.Addr + "/hostile/" + hr.name + " HTTP/1.1\r\nHost: " + origin.Addr + "\r\n\r\n"))
+				co := ReadResponse(c, headOnly, 3*time.Second)
+				return truncate(co.Raw, 120), co.P.Verdict, co.P.Status
+			})
+		}
 	}
 	// seeded mutations of well-formed origin replies
 	{
@@ -754,6 +806,10 @@ func RunHostile(self, tier string, seed uint64, only string) []HostileResult {
 		ch.stop()
 	}
 
+	// a burst of connections exhausts the child's descriptor table: accept fails with EMFILE (temporary, not a timeout)
+	if only == "" || strings.HasPrefix(only, "accept-storm") {
+		out = append(out, acceptStorm(self, origin.Addr))
+	}
 	// endless request-head line against a memory-capped child
 	if only == "" || strings.HasPrefix(only, "endless-request-line") {
 		budget, capBudget, limit := 64<<20, 256<<20, 20*time.Second
@@ -830,6 +886,59 @@ func endlessLine(self, name string, capBytes int64, budget int, limit time.Durat
 			pc.Close()
 		}
 	}
+	return r
+}
+
+// acceptStorm: the child's descriptor limit is 64; 200 clients connect and stay silent, so Accept keeps failing with
+// "too many open files"; the clients leave; a fresh client must be served (the accept loop backs off at most 1 s).
+func acceptStorm(self, originAddr string) HostileResult {
+	r := HostileResult{Name: "accept-storm-descriptor-table-full", Listener: "plain"}
+	ch, err := startChildN(self, 0, 2*time.Second, 64)
+	if err != nil {
+		r.Note = "child: " + err.Error()
+		r.Crashed = true
+		return r
+	}
+	defer ch.stop()
+	t0 := time.Now()
+	var cs []net.Conn
+	for i := 0; i < 200; i++ {
+		c, err := net.DialTimeout("tcp", ch.info.Plain, 500*time.Millisecond)
+		if err != nil {
+			break
+		}
+		cs = append(cs, c)
+	}
+	r.Sent = len(cs)
+	time.Sleep(400 * time.Millisecond)
+	for _, c := range cs {
+		c.Close()
+	}
+	r.Crashed = !ch.alive()
+	if r.Crashed {
+		r.ExitText = ch.exitText()
+		return r
+	}
+	for try := 0; try < 8 && !r.ProbeOK; try++ {
+		time.Sleep(300 * time.Millisecond)
+		pc, err := net.DialTimeout("tcp", ch.info.Plain, time.Second)
+		if err != nil {
+			r.ProbeText = "dial: " + err.Error()
+			continue
+		}
+		pc.Write([]byte("GET http://" + originAddr + "/probe HTTP/1.1\r\nHost: " + originAddr + "\r\nConnection: close\r\n\r\n"))
+		co := ReadResponse(pc, false, 2*time.Second)
+		r.ProbeOK = co.P.Verdict == VComplete && co.P.Status == 200
+		if !r.ProbeOK {
+			r.ProbeText = fmt.Sprintf("%s %d %q end=%s", co.P.Verdict, co.P.Status, truncate(co.Raw, 80), co.End)
+		}
+		pc.Close()
+	}
+	if !ch.alive() {
+		r.Crashed = true
+		r.ExitText = ch.exitText()
+	}
+	r.Seconds = time.Since(t0).Seconds()
 	return r
 }
 
